@@ -27,6 +27,12 @@ def value_desc(v, model):
         same = v.model is model
         kind = "cells" if isinstance(v, Cells) else ("model" if isinstance(v, Model) else "space")
         return ["obj", kind, "same" if same else idt[0], [_j(x) for x in idt[1:]]]
+    try:
+        from modelx.core.node import BaseNode
+        if isinstance(v, BaseNode):
+            return ["node", value_desc(v.obj, model), [value_desc(a, model) for a in getattr(v, "args", ())]]
+    except ImportError:
+        pass
     if isinstance(v, types.ModuleType):
         return ["module", v.__name__]
     if isinstance(v, types.FunctionType):
